@@ -609,7 +609,7 @@ func callSSA(i *interpreter, caller *frame, callpos token.Pos, fn *ssa.Function,
 		}
 		if fn.Pkg != nil {
 			path := fn.Pkg.Pkg.Path()
-			if fn.Name() == "init" && fn.Signature.Recv() == nil && !i.P.isRepoPkg(path) {
+			if fn.Name() == "init" && fn.Signature.Recv() == nil && !i.P.runsInit(path) {
 				return nil // third-party package initialisers are not run
 			}
 			if i.P.isSinkPkg(path) {
